@@ -6,7 +6,7 @@
 //! share buckets and fusion groups.
 
 use crate::gen::{self, gen_clustered_list, gen_request, standard_resources, Profile, TAGS};
-use crate::mon::common::{ask, build_engine, minimize_rules, Answer};
+use crate::mon::common::{ask, build_engine, differs_only_by_redirect_tie, minimize_rules, Answer};
 use crate::oracle::resources::ResModel;
 use crate::oracle::scan::{split_csp, Scan};
 use crate::report::{guarded, Ctx};
@@ -53,6 +53,7 @@ fn blocker_answer(b: &Blocker, res: &ResourceStorage, rq: &Request) -> Answer {
 }
 
 enum Ev {
+    Tie,
     Ok { nt: bool, h: u64, sample: serde_json::Value, by_fused: bool },
     Diff { kind: &'static str, detail: serde_json::Value },
 }
@@ -113,7 +114,11 @@ fn twins(ctx: &mut Ctx) {
                     let by_fused = a.filter.as_ref().map(|f| f.contains(" <+> ")).unwrap_or(false)
                         || a.exception_text.as_ref().map(|f| f.contains(" <+> ")).unwrap_or(false);
                     let h = fnv(&format!("{:?}|{:?}|{}|{}|{}", rules, tags, q.url, q.source, q.rtype));
-                    if !a.same_verdict(&b) {
+                    if !a.same_verdict(&b) && differs_only_by_redirect_tie(&a, &b, &rules, &tagset, &rq, &q.url, &resdefs) {
+                        out.push(Ev::Tie);
+                    } else if !b.same_verdict(&c) && differs_only_by_redirect_tie(&b, &c, &rules, &tagset, &rq, &q.url, &resdefs) {
+                        out.push(Ev::Tie);
+                    } else if !a.same_verdict(&b) {
                         let min = minimize_rules(&rules, |cand| {
                             let mut x = build_engine(cand, opts, debug, true);
                             let mut y = build_engine(cand, opts, debug, false);
@@ -154,7 +159,10 @@ fn twins(ctx: &mut Ctx) {
                     };
                     let rq = Request::new(&q.url, &q.source, q.rtype).unwrap();
                     let now = blocker_answer(&blocker, &storage, &rq);
-                    if !now.same_verdict(prev) {
+                    let tagset2: HashSet<String> = tags.iter().map(|s| s.to_string()).collect();
+                    if !now.same_verdict(prev) && differs_only_by_redirect_tie(&now, prev, &rules, &tagset2, &rq, &q.url, &resdefs) {
+                        out.push(Ev::Tie);
+                    } else if !now.same_verdict(prev) {
                         out.push(Ev::Diff {
                             kind: "live-optimize",
                             detail: json!({"rules": rules, "tags": tags, "url": q.url, "source": q.source, "type": q.rtype,
@@ -177,6 +185,7 @@ fn twins(ctx: &mut Ctx) {
                 for ev in evs {
                     ctx.eval();
                     match ev {
+                        Ev::Tie => ctx.obs("answers_differing_only_by_an_equal_priority_redirect_tie", 1),
                         Ev::Ok { nt, h, sample, by_fused } => {
                             if nt {
                                 ctx.nontrivial(h);
